@@ -22,10 +22,13 @@ MANIFEST = dict(
           'in target) and the decision procedure Ambig.find (literal/literal by text, literal/within-word by running the within-word '
           'automaton, within-word/within-word by a checked product of the character-level expansions). Proved (Props/C09.v): '
           'C09_dec_correct_partial (find = None -> unambiguous), C09_dec_witness (an exhibited word is read by both items), '
+          'C09_dec_complete / C09_dec_correct (on tables without duplicate keys find = None <-> unambiguous unless a product search '
+          'ran out of its fuel), C09_fallback_transparent_check (Check.from_grammar of a grammar and of its | variant are matched by '
+          'the same command lines), '
           'C09_unambiguous (outside the known mechanisms), C09_fallback_transparent_spec (for the specification Spec/Meaning.v and '
           'the model of the level pass, replacing every || by | changes neither the matched lines nor, up to levels, the expected '
-          'items), C09_candidates_monotone_partial. The converse of the decision and the transparency/monotonicity statements for '
-          'the compiled automaton are only stated. The implementation is decided directly: extracted Ambig.find on Rust\'s minimised '
+          'items), C09_candidates_monotone_partial. The transparency/monotonicity statements for the compiled automaton and the '
+          'script are only stated. The implementation is decided directly: extracted Ambig.find on Rust\'s minimised '
           'automaton of every generated grammar (biased to || branches and call variants starting with the same literal, within-word '
           'expressions repeated with permuted alternatives or through definitions), and the || script against the | script in real '
           'bash (same matched lines, candidates monotone).'),
